@@ -3,6 +3,7 @@ package main
 import (
 	"fmt"
 	"go/ast"
+	"go/token"
 	"go/types"
 	"strings"
 )
@@ -57,11 +58,57 @@ func ruleAuthGate(r *Run) {
 		r.Undecide("anchors", "auth anchors not found (cmd.main, websocket.Handle, VerifyAuthToken, VerifyAuthTokenHandler, HandleSmokeTest, VerifyUserAuth, GetUserTokenFromHTTPRequest)")
 		return
 	}
-	// (a) every websocket.Server literal whose handler reaches the relay has the token handshake
+	// (a) every websocket.Server literal whose handler reaches the relay has the token handshake, and the
+	// relay is entered from nowhere else. "Reaches" looks through repository functions the handler calls
+	// (serveClient(ctx, conn, opts)); a function that enters the relay must have every one of its uses
+	// inside the handler expression of a gated server (or inside another such function).
+	type span struct{ lo, hi token.Pos }
+	var gated []span
+	scaffolding := func(fn *Func) bool {
+		// test scaffolding compiled into the package; never reachable from cmd.main
+		return strings.HasSuffix(r.P.Fset.Position(fn.Body.Pos()).Filename, "/websocket/testing.go")
+	}
+	reachMemo := map[*Func]bool{}
+	var reachesRelay func(body ast.Node, info *types.Info, depth int) bool
+	reachesRelay = func(body ast.Node, info *types.Info, depth int) bool {
+		if r.bodyCalls(body, info, handle) {
+			return true
+		}
+		if depth > 3 {
+			return false
+		}
+		found := false
+		ast.Inspect(body, func(n ast.Node) bool {
+			if found {
+				return false
+			}
+			var obj types.Object
+			switch v := n.(type) {
+			case *ast.CallExpr:
+				obj = calleeObj(info, v)
+			case *ast.Ident:
+				obj = info.Uses[v] // a declared function handed over as a value (Handler: serveClient)
+			}
+			if f, ok := obj.(*types.Func); ok && f.Pkg() != nil && isRepoPkg(f.Pkg()) && f.Pkg().Path() != pkgWS {
+				if g := r.P.Funcs[f]; g != nil {
+					if v, done := reachMemo[g]; done {
+						found = found || v
+					} else {
+						reachMemo[g] = false
+						v := reachesRelay(g.Body, g.Info(), depth+1)
+						reachMemo[g] = v
+						found = found || v
+					}
+				}
+			}
+			return true
+		})
+		return found
+	}
 	nRelay := 0
 	for _, fn := range r.P.All {
-		if strings.HasSuffix(r.P.Fset.Position(fn.Body.Pos()).Filename, "/websocket/testing.go") {
-			continue // test scaffolding compiled into the package; never reachable from cmd.main
+		if scaffolding(fn) {
+			continue
 		}
 		info := fn.Info()
 		ast.Inspect(fn.Body, func(n ast.Node) bool {
@@ -78,11 +125,7 @@ func ruleAuthGate(r *Run) {
 				return true
 			}
 			hx := litField(cl, "Handler")
-			reaches := false
-			if hx != nil {
-				reaches = r.bodyCalls(hx, info, handle)
-			}
-			if !reaches {
+			if hx == nil || !reachesRelay(hx, info, 0) {
 				return true
 			}
 			nRelay++
@@ -93,14 +136,54 @@ func ruleAuthGate(r *Run) {
 					okHS = true
 				}
 			}
+			if okHS {
+				gated = append(gated, span{hx.Pos(), hx.End()})
+			}
 			r.Check("I6", fn.Name+":relay-server-handshake", okHS, cl.Pos(), "a websocket server whose handler reaches the relay verifies the access token in its handshake (before any handler code runs)")
 			return true
 		})
-		// any other caller of websocket.Handle
-		if fn.Pkg.PkgPath != pkgWS && r.bodyCalls(fn.Body, info, handle) {
-			r.Check("I6", fn.Name+":relay-caller", fn == main, fn.Body.Pos(), "the relay is entered only from the server's connection closure in cmd.main")
-		}
 	}
+	inGate := func(pos token.Pos) bool {
+		for _, g := range gated {
+			if g.lo <= pos && pos < g.hi {
+				return true
+			}
+		}
+		return false
+	}
+	// every use of a function that enters the relay lies behind a gate
+	var usesGated func(f *types.Func, depth int) bool
+	usesGated = func(f *types.Func, depth int) bool {
+		n := 0
+		for _, fn := range r.P.All {
+			if scaffolding(fn) || fn.Pkg.PkgPath == pkgWS {
+				continue
+			}
+			info := fn.Info()
+			bad := false
+			ast.Inspect(fn.Body, func(nd ast.Node) bool {
+				id, ok := nd.(*ast.Ident)
+				if !ok || info.Uses[id] != types.Object(f) {
+					return true
+				}
+				n++
+				if inGate(id.Pos()) {
+					return true
+				}
+				if fn.Obj != nil && fn != main && depth < 3 && usesGated(fn.Obj, depth+1) {
+					return true
+				}
+				bad = true
+				r.Check("I6", fn.Name+":relay-caller", false, id.Pos(), "the relay (%s) is entered only from the handler of a websocket server whose handshake verifies the token", f.Name())
+				return true
+			})
+			if !bad && n > 0 && depth == 0 {
+				r.Check("I6", fn.Name+":relay-caller", true, fn.Body.Pos(), "the relay is entered only from the handler of a websocket server whose handshake verifies the token")
+			}
+		}
+		return n > 0
+	}
+	_ = usesGated(handle, 0)
 	r.Floor("I6", "websocket servers that reach the relay", nRelay, 1)
 	// (b) the smoke test is only ever mounted behind the token check
 	nSmoke := 0
@@ -313,6 +396,7 @@ func ruleReceiptFlow(r *Run) {
 	}
 	// the goroutine HandleReceipts starts: a literal, or a (glue) method / function of the package
 	var worker *Func
+	queueParam := "" // the worker's parameter that is the queue, when the queue is handed to it
 	ast.Inspect(hr.Body, func(nd ast.Node) bool {
 		gs, ok := nd.(*ast.GoStmt)
 		if !ok {
@@ -322,9 +406,17 @@ func ruleReceiptFlow(r *Run) {
 			worker = r.P.Lits[lit]
 		} else if f, _ := calleeObj(hr.Info(), gs.Call).(*types.Func); f != nil && r.P.isGlue(f) {
 			worker = r.P.Funcs[f]
+			for k, a := range gs.Call.Args {
+				if strings.HasSuffix(r.P.Canon(hr, a), ".ReceiptChan") {
+					queueParam = fmt.Sprintf("param:#%d", k)
+				}
+			}
 		}
 		return false
 	})
+	isQueue := func(c string) bool {
+		return strings.HasSuffix(c, ".ReceiptChan") || (queueParam != "" && c == queueParam)
+	}
 	if !r.Check("I5", hr.Name+":worker", worker != nil, hr.Body.Pos(), "HandleReceipts starts a worker goroutine") {
 		return
 	}
@@ -337,7 +429,7 @@ func ruleReceiptFlow(r *Run) {
 		verdict := ""
 		var recvIdx = -1
 		for i, ev := range path.Events {
-			if ev.Kind == EvChanOp && !ev.Send && strings.HasSuffix(r.P.Canon(ev.Fn, ev.Chan), ".ReceiptChan") {
+			if ev.Kind == EvChanOp && !ev.Send && isQueue(r.P.Canon(ev.Fn, ev.Chan)) {
 				recvIdx = i
 			}
 			if ev.Kind == EvGuard {
@@ -369,7 +461,7 @@ func ruleReceiptFlow(r *Run) {
 						continue
 					}
 					c := r.P.Canon(ev.Fn, l)
-					if strings.Contains(c, ".ReceiptChan") {
+					if strings.Contains(c, ".ReceiptChan") || (queueParam != "" && strings.Contains(c, "<-"+queueParam)) {
 						r.CheckT("I5", worker.Name+":payload-untouched", false, ev.Pos, path, "the worker rewrites the received payload (%s) before verifying / forwarding it: what is verified or forwarded is no longer what the client submitted", c)
 					}
 				}
@@ -498,28 +590,102 @@ func ruleReceiptFlow(r *Run) {
 		r.Check("I5", ff.Name+":posts", total >= 1, ff.Body.Pos(), "forwarding posts the receipt to the credit service")
 	}
 
-	// the channel the handler queues on is the one the worker drains (wired in cmd.main)
+	// the channel the handler queues on is the one the worker drains (wired in package cmd: the two
+	// literals may sit in cmd.main or in functions it hands the channel to, e.g. through an options struct)
 	if main := r.modelFunc("cmd.main"); main != nil {
-		var chanVar string
-		okWire := false
-		ast.Inspect(main.Body, func(nd ast.Node) bool {
-			cl, ok := nd.(*ast.CompositeLit)
-			if !ok {
-				return true
+		var origins []ast.Expr
+		okWire := true
+		for _, fn := range r.P.All {
+			if fn.Pkg != main.Pkg {
+				continue
 			}
-			_, tn := litTypeName(main.Info(), cl)
-			if tn == "ReceiptHandler" || tn == "RealtimeHandler" {
-				if x := litField(cl, "ReceiptChan"); x != nil {
-					c := r.P.Canon(main, x)
-					if chanVar == "" {
-						chanVar = c
-					} else if chanVar == c && strings.HasPrefix(c, "make(") {
-						okWire = true
+			ast.Inspect(fn.Body, func(nd ast.Node) bool {
+				cl, ok := nd.(*ast.CompositeLit)
+				if !ok {
+					return true
+				}
+				_, tn := litTypeName(fn.Info(), cl)
+				if tn == "ReceiptHandler" || tn == "RealtimeHandler" {
+					if x := litField(cl, "ReceiptChan"); x != nil {
+						o, ofn := r.originOf(fn, x, 0)
+						if o == nil || !strings.HasPrefix(r.P.Canon(ofn, o), "make(") {
+							okWire = false
+						}
+						origins = append(origins, o)
+					} else {
+						okWire = false // a handler without the queue
 					}
 				}
+				return true
+			})
+		}
+		okWire = okWire && len(origins) >= 2
+		for _, o := range origins {
+			if o != origins[0] {
+				okWire = false
 			}
-			return true
-		})
+		}
 		r.Check("I5", "cmd.main:wiring", okWire, main.Body.Pos(), "the relay's receipt channel and the receipt worker's channel are one and the same buffered channel")
 	}
+}
+
+// originOf follows a value back to the expression that created it: through single-assignment locals
+// (also of the enclosing function, for closures), through a parameter of a function with exactly one call
+// site to the argument at that site, and through a field of a struct built by a literal.
+func (r *Run) originOf(fn *Func, x ast.Expr, depth int) (ast.Expr, *Func) {
+	for i := 0; i < 8 && x != nil; i++ {
+		switch v := ast.Unparen(x).(type) {
+		case *ast.Ident:
+			obj, _ := fn.Info().Uses[v].(*types.Var)
+			if obj == nil {
+				return x, fn
+			}
+			root := fn.root()
+			if k := paramIndex(root, obj); k >= 0 && root.Obj != nil {
+				var caller *Func
+				var arg ast.Expr
+				n := 0
+				for _, g := range r.P.All {
+					ast.Inspect(g.Body, func(nd ast.Node) bool {
+						if c, ok := nd.(*ast.CallExpr); ok && calleeObj(g.Info(), c) == types.Object(root.Obj) && k < len(c.Args) {
+							n++
+							caller, arg = g, c.Args[k]
+						}
+						return true
+					})
+				}
+				if n != 1 {
+					return x, fn
+				}
+				fn, x = caller, arg
+				continue
+			}
+			ds, ok := fn.Defs().singleDef(obj)
+			if !ok || ds.kind != "assign" || ds.multi || ds.rhs == nil {
+				return x, fn
+			}
+			x = ds.rhs
+		case *ast.SelectorExpr:
+			sel, ok := fn.Info().Selections[v]
+			if !ok || sel.Kind() != types.FieldVal || depth > 3 {
+				return x, fn
+			}
+			base, bfn := r.originOf(fn, v.X, depth+1)
+			if ue, ok := ast.Unparen(base).(*ast.UnaryExpr); ok && ue.Op == token.AND {
+				base = ue.X
+			}
+			cl, ok := ast.Unparen(base).(*ast.CompositeLit)
+			if !ok {
+				return x, fn
+			}
+			fv := litField(cl, sel.Obj().Name())
+			if fv == nil {
+				return x, fn
+			}
+			fn, x = bfn, fv
+		default:
+			return x, fn
+		}
+	}
+	return x, fn
 }
